@@ -310,9 +310,11 @@ def build_harness(ctx, name, sources, flags=(), repo_sources=(), sanitize=True,
     if os.path.exists(out):
         return out, "cached"
     for old in os.listdir(ctx.work):
+        # drop stale binaries, but never one a concurrent run may still be using
         if old.startswith(name + "-"):
             try:
-                os.remove(os.path.join(ctx.work, old))
+                if time.time() - os.path.getmtime(os.path.join(ctx.work, old)) > 2 * 3600:
+                    os.remove(os.path.join(ctx.work, old))
             except OSError:
                 pass
     cmd = [CXX] + fl + (["-I" + REPO] if include_repo else []) + ["-I" + hdir] + srcs + ["-o", out + ".tmp", "-pthread"]
